@@ -1,5 +1,6 @@
 import PyYetiVerif.Lemmas.BulkSet
 import PyYetiVerif.Lemmas.BulkTab
+import PyYetiVerif.Lemmas.BulkInts
 /-!
 # C13 — SET and TABLED1 on physical lines; the integer field codec
 
@@ -53,7 +54,36 @@ theorem tabled1_roundtrip (wide : Bool) (name : Txt) (tid : Int) (pairs : List (
       some [(Val.int tid, pairs.map fun p => ((nasScan p.1).arr, (nasScan p.2).arr))] :=
   rdTabled1_written wide name tid pairs h
 
+/-- `rdspoints (wtspoints ids) = ids` on physical lines: every card of `_wt_with_thru` (up to 8 single
+ids, or `a THRU b` alone on its card) is one 8-column-field line that the reader slices, scans
+(`THRU` as a word, ids exactly) and expands, for every id list whose ids fit an 8-column field. -/
+theorem spoint_lines_roundtrip (ids : List Int) (hw : ∀ x ∈ ids, (dec x).length ≤ 8) :
+    rdSpoints (spointLines ids) = some ids :=
+  rdSpoints_spointLines ids hw
+
+/-- `rdcsupers (wtcsuper id grids) = {id: [id, 0, grids…]}` on physical lines, any number of grids
+(first line 6 ids, 8 per continuation line, no padding blanks in between) -/
+theorem csuper_lines_roundtrip (sid : Int) (grids : List Int) (hs : (dec sid).length ≤ 8)
+    (hw : ∀ x ∈ grids, (dec x).length ≤ 8) :
+    rdCsupers (csuperLines sid grids) = [(Val.int sid, Val.int sid :: Val.int 0 :: grids.map Val.int)] :=
+  rdCsupers_csuperLines sid grids hs hw
+
+/-- `rdextrn (wtextrn ids dof, expand=False)` = the id / dof pairs in order, on physical lines -/
+theorem extrn_lines_roundtrip (pairs : List (Int × Int)) (hne : pairs ≠ [])
+    (hw : ∀ p ∈ pairs, (dec p.1).length ≤ 8 ∧ (dec p.2).length ≤ 8) :
+    rdExtrn (extrnLines pairs) = some (pairs.map fun p => (Val.int p.1, Val.int p.2)) :=
+  rdExtrn_extrnLines pairs hne hw
+
 /-! ### non-vacuity -/
+
+example : rdSpoints (spointLines [1001, 1002, 1003, 7]) = some [1001, 1002, 1003, 7] :=
+  spoint_lines_roundtrip _ (by decide)
+example : rdCsupers (csuperLines 100 [1, 2, 3, 4, 5, 6, 7]) =
+    [(.int 100, [.int 100, .int 0, .int 1, .int 2, .int 3, .int 4, .int 5, .int 6, .int 7])] :=
+  csuper_lines_roundtrip 100 _ (by decide) (by decide)
+example : rdExtrn (extrnLines [(999, 123456), (10001, 0)]) = some [(.int 999, .int 123456), (.int 10001, .int 0)] :=
+  extrn_lines_roundtrip _ (by decide) (by decide)
+
 
 example : setLines 7 [1, 2, 3, 5] 72 = [txt "SET 7 = 1 THRU 3, 5"] := by decide
 example : rdSets [txt "SET 7 = 1 THRU 3, 5"] = some [(.int 7, [1, 2, 3, 5])] := by decide
